@@ -8,6 +8,7 @@
 //!   3020 glwe_automorphism_key_automorphism 3021 _assign    x0 = p_a, x3 = p_b, x4 = dnum_a, x5 = k_noise_a, x6 = dnum_res
 //!   3030 glwe_trace 3031 glwe_trace_assign                  x0 = skip
 //!   3032 glwe_pack                                          x0 = log_gap_out, x3 = bit mask of the occupied slots
+//!   3033 GLWEPacker (log_batch 0): N x glwe_packer_add, flush  x3 = bit mask of the calls that carry a ciphertext
 //!   3040 lwe_from_glwe (x0 = coefficient index, x3 = n_lwe)  3041 glwe_from_lwe (x3 = n_lwe)  3042 lwe_sample_extract (x3 = n_lwe)
 //!   3050 shape independence: one encrypted message switched through a grid of key shapes (x3 = k_pt, x4 = G, then 6 numbers per shape)
 //!   3090 key rows of a freshly encrypted GLWE switching key (x0 = 0) / automorphism key (x0 = p)
@@ -253,6 +254,41 @@ fn run(r: &Rec) -> Ran {
                     (o, vec![vec![1]])
                 }))
             }
+            3033 => {
+                // GLWEPacker, log_batch = 0: N calls to glwe_packer_add (Some for the occupied slots), then flush
+                let mask = x(3) as u64;
+                let sk = sk_new(n, h.key_rin, h.seed ^ 1, kin);
+                let keys = atk_map(&m, &h, &sk, h.seed);
+                let slots: Vec<usize> = (0..n).filter(|i| (mask >> i) & 1 == 1).collect();
+                let cell = n * (h.in_rank + 1) * h.in_size;
+                let av = input_or(r, 2, || digits(&mut g, cell * slots.len(), h.in_b, class));
+                let s = sk_coeffs(&m, &sk);
+                let vs = vec![s.clone(), s, av.clone(), vec![]];
+                let lk = h.gglwe();
+                (vs, try_op(|| {
+                    let (mut o, same) = twice(|fill| {
+                        // the accumulators have the layout of the result; the inputs their own
+                        let lo = h.glwe_out();
+                        let mut packer = poulpy_core::GLWEPacker::alloc(&lo, 0);
+                        let mut sc = scratch(2 * poulpy_core::glwe_packer_tmp_bytes(&m, &lo, &lk) + (1 << 16), fill);
+                        let mut k = 0usize;
+                        for i in 0..n {
+                            if (mask >> i) & 1 == 1 {
+                                let ct = glwe_from(n, h.in_b, h.in_size, h.in_rank, &av[k * cell..(k + 1) * cell]);
+                                k += 1;
+                                poulpy_core::glwe_packer_add(&m, &mut packer, Some(&ct), &keys, sc.borrow());
+                            } else {
+                                poulpy_core::glwe_packer_add(&m, &mut packer, None::<&GLWE<Vec<u8>>>, &keys, sc.borrow());
+                            }
+                        }
+                        let mut res = GLWE::alloc_from_infos(&lo);
+                        poulpy_core::glwe_packer_flush(&m, &mut packer, &mut res, sc.borrow());
+                        vec![glwe_dump(&res)]
+                    });
+                    o.push(vec![same]);
+                    (o, vec![vec![1]])
+                }))
+            }
             3040 => {
                 let (idx, nl) = (us(x(0)), us(x(3)));
                 let sk = sk_new(n, h.key_rin, h.seed ^ 1, kin);
@@ -416,14 +452,15 @@ pub fn generate(tier: &str, seed: u64) -> Vec<Rec> {
         out.push(mk(code, &h, vec![0, k, c]));
         if it % 4 == 0 { out.push(mk(3090, &h, vec![0, k])); }
     }
-    // --- automorphism variants: every Galois element for N <= 32 (all 8 variants cycle over the elements)
+    // --- automorphism variants: every Galois element of (Z/2NZ)* for N <= 32, each with the plain automorphism (out of place / in place
+    //     alternating) and one of the six add / sub variants
     for n in [8usize, 16, 32] {
         for (gi, p) in (1..2 * n as i64).step_by(2).enumerate() {
-            for rep in 0..(if n == 8 { 2 * scale } else { scale }) {
+            for rep in 0..(2 * scale) {
                 let it = (gi as u64) + rep;
                 let mut h = base(&mut rng, it, 4, true);
                 h.n = n;
-                let code = 3010 + ((gi as i64 + rep as i64 * 3) % 8);
+                let code = if rep % 2 == 0 { 3010 + ((gi as i64 + (rep as i64) / 2) % 2) } else { 3012 + ((gi as i64 + (rep as i64) / 2) % 6) };
                 if matches!(code, 3011 | 3013 | 3016 | 3017) { h.out_b = h.in_b; h.out_size = h.in_size; }
                 let pp = if rng.below(2) == 0 { p } else { p - 2 * n as i64 };
                 let (k, c) = (kinds(&mut rng), rng.below(6) as i128);
@@ -475,6 +512,17 @@ pub fn generate(tier: &str, seed: u64) -> Vec<Rec> {
             let log_gap = (it as usize) % (logn + 1);
             let mask: u64 = match it % 4 { 0 => (1u64 << n) - 1, 1 => 1, _ => (rng.next() & ((1u64 << n) - 1)) | 1 };
             out.push(mk(3032, &h, vec![log_gap as i128, kinds(&mut rng), rng.below(6) as i128, mask as i128]));
+        }
+    }
+    // --- on-the-fly packer (bit-reversed output), log_batch = 0
+    for n in [8usize, 16] {
+        for it in 0..(6 * scale) {
+            let mut h = base(&mut rng, it, 2, true);
+            h.n = n;
+            let mask: u64 = match it % 3 { 0 => (1u64 << n) - 1, _ => (rng.next() & ((1u64 << n) - 1)) | 1 };
+            // inputs in the radix of the accumulators, except one record per N (radix mismatch: known finding, see tools/props/c03.py)
+            if it != 1 { h.in_b = h.out_b; }
+            out.push(mk(3033, &h, vec![0, kinds(&mut rng), rng.below(6) as i128, mask as i128]));
         }
     }
     // --- LWE key-switch and conversions, every extraction index for N = 8, 16
